@@ -294,7 +294,7 @@ func (session *BaseInSession) onReadRtcpPacket(b []byte, rAddr *net.UDPAddr, err
 func (session *BaseInSession) handleRtcpPacket(b []byte, rAddr *net.UDPAddr) error {
 	session.sessionStat.AddReadBytes(len(b))
 
-	if len(b) <= 0 {
+	if len(b) < 2 {
 		Log.Errorf("[%s] handleRtcpPacket but length invalid. len=%d", session.UniqueKey(), len(b))
 		return nazaerrors.Wrap(base.ErrRtsp)
 	}
